@@ -283,6 +283,9 @@ def _parse_driver_output(res, label, out_lines, fulls=None):
             res.bad_total += int(kv["bad"])
 
 
+REPLAY_LHS = None   # when set (./check --replay): only lines whose left-hand side is in this set reach the driver
+
+
 def run_stream(res, label, exe, env=None, args=None, line_filter=None, trivial=None, stdin_data=None, timeout=3000):
     """Run one harness binary and pipe its op lines to the Lean driver (streamed: memory stays bounded whatever the
     stream size).  `line_filter(line)` may return False (drop), True (keep) or a replacement line."""
@@ -313,6 +316,8 @@ def run_stream(res, label, exe, env=None, args=None, line_filter=None, trivial=N
                     continue
                 if k is not True:
                     l = k + "\n"
+            if REPLAY_LHS is not None and l.split(" =>")[0].strip() not in REPLAY_LHS:
+                continue
             try:
                 d.stdin.write(l)
             except BrokenPipeError:
